@@ -1,3 +1,4 @@
+import Pocket.Lemmas.FromSourcePreds
 import Pocket.Lemmas.FromSourceConsts
 import Pocket.Model.Verify
 import Pocket.Lemmas.Total
@@ -147,5 +148,8 @@ theorem escape_constants_from_source :
     (∀ q ∈ Src.c_json_escape_BACKSLASH, ∀ c ∈ Src.c_json_escape_CR, escapePiece c = some [q, 114]) ∧
     (∀ q ∈ Src.c_json_escape_BACKSLASH, ∀ c ∈ Src.c_json_escape_QUOTE, escapePiece c = some [q, c]) ∧
     (∀ q ∈ Src.c_json_escape_BACKSLASH, escapePiece q = some [q, q]) := Pocket.escape_constants_from_source
+
+/-- the characters `json_escape` copies unescaped are those `is_safe_char` lists in the source today -/
+theorem safe_char_from_source (c : Nat) : Src.isSafeChar c = isSafeChar c := Pocket.safe_char_from_source c
 
 end Pocket.C08
